@@ -600,19 +600,28 @@ pub struct ParsedFen {
     /// file named in the en-passant field (as given in the text), 8 if "-"
     pub ep_file_given: u8,
     pub fields: usize,
+    /// deviations from the strict grammar that still have one obvious reading
+    /// (a lenient reader may accept them; a strict one may refuse them)
+    pub grey: Vec<&'static str>,
 }
 
-/// Strict FEN grammar (PGN standard 16.1): 4 to 6 space-separated fields;
+/// FEN grammar (PGN standard 16.1): 4 to 6 space-separated fields;
 /// placement = 8 ranks separated by '/', each rank summing to exactly 8 with
-/// digits 1-8 and no two consecutive digits; side = "w" | "b"; castling = "-"
-/// or a non-empty duplicate-free string over KQkq in that canonical order;
-/// en passant = "-" or a square [a-h][36] whose rank matches the side to move;
-/// optional halfmove clock and fullmove number = decimal integers.
-/// Returns Err(reason) for malformed text.
-pub fn parse_fen_strict(text: &str) -> Result<ParsedFen, String> {
+/// digits 1-8; side = "w" | "b"; castling = "-" or a non-empty string over
+/// KQkq; en passant = "-" or a square [a-h][36]; optional halfmove clock and
+/// fullmove number.
+/// Err(reason) = malformed beyond doubt. Ok with non-empty `grey` = debatable
+/// (consecutive digits, castling letters repeated or out of KQkq order,
+/// en-passant rank not matching the side to move, more than six fields,
+/// non-numeric counters). Ok with empty `grey` = strictly well-formed.
+pub fn parse_fen(text: &str) -> Result<ParsedFen, String> {
     let fields: Vec<&str> = text.split_ascii_whitespace().collect();
-    if fields.len() < 4 || fields.len() > 6 {
-        return Err(format!("{} fields", fields.len()));
+    let mut grey = vec![];
+    if fields.len() < 4 {
+        return Err(format!("truncated: {} fields", fields.len()));
+    }
+    if fields.len() > 6 {
+        grey.push("more than six fields");
     }
     let mut pos = Pos::empty();
     let ranks: Vec<&str> = fields[0].split('/').collect();
@@ -625,13 +634,22 @@ pub fn parse_fen_strict(text: &str) -> Result<ParsedFen, String> {
         let mut last_digit = false;
         for ch in rank.chars() {
             if let Some(d) = ch.to_digit(10) {
-                if d == 0 || d > 8 || last_digit {
-                    return Err("bad digit".into());
+                if !ch.is_ascii_digit() {
+                    return Err("bad character".into());
+                }
+                if d == 0 || d > 8 {
+                    return Err(format!("digit {}", d));
+                }
+                if last_digit {
+                    grey.push("consecutive digits");
                 }
                 f += d as i8;
                 last_digit = true;
             } else {
                 last_digit = false;
+                if !ch.is_ascii_alphabetic() {
+                    return Err("bad character".into());
+                }
                 let kind = match ch.to_ascii_uppercase() {
                     'Q' => Q,
                     'R' => R,
@@ -641,9 +659,6 @@ pub fn parse_fen_strict(text: &str) -> Result<ParsedFen, String> {
                     'K' => K,
                     _ => return Err("bad piece letter".into()),
                 };
-                if !ch.is_ascii_alphabetic() {
-                    return Err("bad piece letter".into());
-                }
                 if f >= 8 {
                     return Err("rank too long".into());
                 }
@@ -674,13 +689,10 @@ pub fn parse_fen_strict(text: &str) -> Result<ParsedFen, String> {
                 _ => return Err("castling letter".into()),
             };
             if ord <= last {
-                return Err("castling order/duplicate".into());
+                grey.push("castling letters repeated or out of order");
             }
             last = ord;
             pos.rights |= bit;
-        }
-        if fields[2].is_empty() {
-            return Err("castling empty".into());
         }
     }
     let mut ep_file_given = 8;
@@ -689,19 +701,31 @@ pub fn parse_fen_strict(text: &str) -> Result<ParsedFen, String> {
         if b.len() != 2 || !(b'a'..=b'h').contains(&b[0]) {
             return Err("ep square".into());
         }
-        let want = if pos.white { b'6' } else { b'3' };
-        if b[1] != want {
+        if b[1] != b'3' && b[1] != b'6' {
             return Err("ep rank".into());
         }
+        let want = if pos.white { b'6' } else { b'3' };
+        if b[1] != want {
+            grey.push("en-passant rank does not match the side to move");
+        }
         ep_file_given = b[0] - b'a';
-        pos.ep = Some(sq((b[1] - b'1') as i8, ep_file_given as i8));
+        pos.ep = Some(sq((want - b'1') as i8, ep_file_given as i8));
     }
-    for extra in &fields[4..] {
+    for extra in fields.iter().skip(4).take(2) {
         if extra.is_empty() || !extra.bytes().all(|c| c.is_ascii_digit()) {
-            return Err("counter".into());
+            grey.push("non-numeric counter");
         }
     }
-    Ok(ParsedFen { pos, ep_file_given, fields: fields.len() })
+    Ok(ParsedFen { pos, ep_file_given, fields: fields.len(), grey })
+}
+
+/// strictly well-formed or Err
+pub fn parse_fen_strict(text: &str) -> Result<ParsedFen, String> {
+    let p = parse_fen(text)?;
+    if let Some(g) = p.grey.first() {
+        return Err(g.to_string());
+    }
+    Ok(p)
 }
 
 // ------------------------------------------------------------------ Zobrist keys from the published file
